@@ -294,6 +294,8 @@ class FakeSocket:
             raise OSError(9, "Bad file descriptor")     # detached or never connected
 
     def settimeout(self, t):
+        if getattr(self, "closed", False):
+            raise OSError(9, "Bad file descriptor")      # as a real closed socket does
         self.timeout = t
         self.world.log("settimeout", self.wire.id if self.wire else -1, t)
 
@@ -348,6 +350,7 @@ class FakeSocket:
             data = data[n:]
 
     def close(self):
+        self.closed = True
         if self.wire is not None:
             sdrive(self.world, self.wire, self.wire.close())
 
